@@ -189,7 +189,7 @@ def _reply(batch):
               marker_last=(not marks) or isinstance(batch[-1], Exception))
 
 
-def run_real(case, max_steps=12000):
+def run_real(case, max_steps=2500):   # clean runs need <= ~250 steps; a non-terminating change must end a case quickly
   from harness import fakecourier
   fakecourier.install()
   fakecourier.reset(mode='inline')
